@@ -33,6 +33,7 @@ def run(ctx):
     from . import c01 as _c01
     from .common import AssocModel as _AM
     ctx.shared(_c01.rop_identity, ctx, _AM(ctx.repo))   # the extracted associations are written by serialize_association
+    ctx.shared(_c01.quote, ctx)                         # ... and their phrases (free text with apostrophes) survive writing and loading the schema
     ctx.assume('the effect of edit scripts on concrete BridgePoint models is not decided')
     ctx.assume('writing the schema and loading it back is decided by the C01 rules')
     return ('Schema type-check of the ooaofooa navigations; provenance (after substituting local definitions) of each keyword '
